@@ -10,5 +10,8 @@ Definition shm_slice : slice_kind := SliceRecorded.
 Definition reducer_dispatch : list reduce_rule := [RTensorCSR; RTensorCSC; RTensorTorch; RStorageTorch; ROwnReduction].
 Definition run_pipeline_steps : list rp_step := [RPQueryFromUserId; RPItemsIfTestItems; RPExtraOverride; RPRunAll; RPCopyOutputs].
 Definition batch_loop_shape : batch_loop := AddEachOutputUnderItsKey.
+Definition helper_recommend : helper_setup := HSRecommendN.
+Definition helper_score : helper_setup := HSScore.
+Definition helper_predict : helper_setup := HSPredict.
 Definition pool_shutdown : list shutdown_step := [ShutPool; ShutManager].
 Definition worker_init_steps : list init_step := [InitDeclareGlobals; InitCurrentProcess; InitFilterWarnings; InitRebuildContext].
